@@ -31,6 +31,13 @@ CHECKS["C01"] = dict(
     ref="5/C01",
 )
 
+CHECKS["C20"] = dict(
+    technique="TLA+ reader-under-faults model (ReaderFaults.tla) model-checked and used by TLC to predict the outcome of every truncation / directory byte flip applied to corpus files; FontLifecycle trace validation for undecodable payloads; TLC-judged crash-point enumeration for failing saves and audit-event policy for hostile text inputs",
+    text="TLC checks the reader model on every truncation and header/directory flip of small files, then judges what the real reader did for ~40k faults on corpus sfnt/TTC/WOFF/WOFF2 files against the model's prediction (library error type, never a foreign exception, never data that is not there); damaged payloads under ignoreDecompileErrors are replayed through the FontLifecycle actions (kept raw, re-saved verbatim); one failing compile per table x save entry point (sfnt/woff/woff2/TTC/same file) must leave the destination untouched; one occurrence of every (table, element, attribute) kind of the corpus TTX files is replaced by code-execution / traversal canaries and consumed under an interpreter audit hook whose events TLC judges against the policy, plus the varLib CLI with hostile variable-font names.",
+    note="Trusted: TLC, the independent reader, sys.addaudithook event stream. WOFF2 directory not modelled (clean-failure clause only). 'Never executed' is run-time monitoring over input kinds present in the corpus, not a proof over all code paths.",
+    ref="5/C20",
+)
+
 NOT_YET = "check not built yet in this round (see DESIGN.md section 10 for the build order)"
 
 
